@@ -320,6 +320,7 @@ type bench struct {
 	wnext    []int         // per service: workers seen so far
 	wmap     map[int64]int // fetch-loop goroutine -> worker index (in order of first appearance within the service)
 	soak     *rand.Rand    // soak test: Do answers by itself after a short random delay with a random outcome
+	errText  map[int]int   // per worker: which of errTexts the blocked Do fails with (level 2; 0 = the default)
 	trouble  string
 }
 
@@ -369,6 +370,31 @@ func (b *bench) worker(svc int) int {
 }
 
 var errInsert = errors.New("scripted insert failure")
+
+// the error texts a failing INSERT is answered with (level 2 and the soak test): what ch-go / the net package
+// really return when ClickHouse or the connection to it dies.  The handlers must answer an error status whatever
+// the text is.
+var errTexts = []string{
+	"scripted insert failure",
+	"write tcp 10.0.0.5:51234->10.0.0.9:9000: write: connection reset by peer",
+	"read tcp 10.0.0.5:51234->10.0.0.9:9000: read: connection reset by peer",
+	"write tcp 10.0.0.5:51234->10.0.0.9:9000: write: broken pipe",
+	"EOF",
+	"unexpected EOF",
+	"read tcp 10.0.0.5:51234->10.0.0.9:9000: i/o timeout",
+	"context deadline exceeded",
+	"dial tcp: lookup clickhouse on 10.0.0.2:53: read udp 10.0.0.5:40000->10.0.0.2:53: i/o timeout",
+	"code: 241, message: Memory limit (total) exceeded",
+	"connection reset by peer",
+	"handshake: clickhouse: connection refused",
+}
+
+func insertErr(i int) error {
+	if i <= 0 || i >= len(errTexts) {
+		return errInsert
+	}
+	return errors.New(errTexts[i])
+}
 var errDial = errors.New("scripted connection refused")
 
 func (c *fakeClient) Do(ctx context.Context, q ch.Query) error {
@@ -404,18 +430,25 @@ func (c *fakeClient) Do(ctx context.Context, q ch.Query) error {
 		c.b.mu.Lock()
 		c.b.inflight[w] = false
 		c.b.events = append(c.b.events, Ev{T: "done", S: w, Ok: ok})
+		var et int
+		if !ok {
+			et = c.b.soak.Intn(len(errTexts))
+		}
 		c.b.mu.Unlock()
 		if ok {
 			return nil
 		}
-		return errInsert
+		return insertErr(et)
 	}
 	c.b.mu.Unlock()
 	ok := <-c.b.release[w]
 	if ok {
 		return nil
 	}
-	return errInsert
+	c.b.mu.Lock()
+	et := c.b.errText[w]
+	c.b.mu.Unlock()
+	return insertErr(et)
 }
 func (c *fakeClient) Ping(ctx context.Context) error { return nil }
 func (c *fakeClient) Close() error                   { return nil }
@@ -631,7 +664,7 @@ type runner struct {
 }
 
 func newBench(pars []int, dials [][]bool) *bench {
-	b := &bench{wmap: map[int64]int{}}
+	b := &bench{wmap: map[int64]int{}, errText: map[int]int{}}
 	w := 0
 	for _, p := range pars {
 		if p < 1 {
@@ -826,6 +859,7 @@ func runScript(c *Case) {
 // ---------------------------------------------------------------------------------------------- generation
 
 type gen struct {
+	seed    int64
 	r       *rand.Rand
 	nextRid int64
 	quick   bool
@@ -1090,7 +1124,7 @@ func main() {
 			})
 			return
 		}
-		g := &gen{r: hx.Rand(f.Seed)}
+		g := &gen{r: hx.Rand(f.Seed), seed: f.Seed}
 		uniq := f.Seed % 1000 * 1000000
 		for i := 0; i < f.N; i++ {
 			c := &Case2{ID: i}
